@@ -7,6 +7,7 @@ import (
 	"sort"
 	"strings"
 	"sync/atomic"
+	"time"
 
 	"verif/mc"
 
@@ -355,7 +356,7 @@ type longTrace struct {
 }
 
 func checkLong(tr longTrace) *mc.Failure {
-	return mc.GuardT("omap-long", tr, func() *mc.Failure {
+	return mc.GuardTL("omap-long", tr, 10*time.Minute, func() *mc.Failure {
 		c := &cfg{Keys: tr.N, Vals: 1, Cmp: tr.Cmp}
 		var cnt counters
 		s := &inst{c: c, m: newMap(c), ref: map[int]int{}, cnt: &cnt}
@@ -504,7 +505,7 @@ func main() {
 			},
 		},
 		mc.Harness{
-			Name: "omap-long",
+			Name: "omap-long", HangLimit: 10 * time.Minute,
 			Explore: func(r *mc.Run) {
 				// Larger maps (several tree levels, rebuilds of the underlying tree):
 				// fixed fill / thin-out / refill histories, full observation at
@@ -512,7 +513,7 @@ func main() {
 				var n int64
 				for _, cm := range []string{"natural", "scaled", "reversed"} {
 					for _, order := range []string{"asc", "desc", "zigzag"} {
-						tr := longTrace{Cmp: cm, Order: order, N: mc.Pick(r, 40, 120)}
+						tr := longTrace{Cmp: cm, Order: order, N: mc.Pick(r, 300, 700)}
 						if f := checkLong(tr); f != nil {
 							r.Violation(mc.Case{Harness: "omap-long", Trace: mc.J(tr), Msg: f.Msg, Step: f.Step})
 						}
